@@ -773,9 +773,20 @@ class ExprMixin:
     def ev_DictComp(self, e):
         pairs = self.comprehend(ast.Tuple(elts=[e.key, e.value], ctx=ast.Load()), e.generators)
         d = {}
+        sym = []
         for p in pairs:
-            d[key_of(p.t[0])] = p.t[1]
-        return SV('dict', self.st.alloc(HDict(d)))
+            try:
+                if sym:
+                    raise Unsupported('mix')
+                d[key_of(p.t[0])] = p.t[1]
+            except Unsupported:
+                if d:
+                    sym = [(self.unkey(k_), v_) for k_, v_ in d.items()]
+                    d = {}
+                sym.append((p.t[0], p.t[1]))
+        h = HDict(d)
+        h.sym = sym
+        return SV('dict', self.st.alloc(h))
 
     def comprehend(self, elt, gens):
         out = []
